@@ -16,3 +16,15 @@ Definition property_from_ref (o : oracles) (existing : rprop) (name : str) (requ
   | Err => RErr
   | Crash => RCrash
   end.
+
+(* EnumProperty.build / LiteralEnumProperty.build on a value list that contains null (enum_property.py:103-118,
+   literal_enum_property.py:102-117): the schema is rewritten into oneOf [null, copy of the enum WITHOUT null carrying the SAME default]
+   and handed to UnionProperty.build, which first builds the members (the inner enum validates the default with its own
+   convert_value; an error there fails the whole property) and then converts the OUTER schema's default with the union.
+   inner = the CEnum / CLitEnum kind of the null-free copy. *)
+Definition nullable_enum_default (o : oracles) (inner : ckind) (pd : jval) : result :=
+  match convert_value o inner pd with
+  | Err => Err
+  | Crash => Crash
+  | Ok _ => convert_value o (CUnion [CNone; inner]) pd
+  end.
